@@ -12,6 +12,12 @@ CHECKS = {
         "Exhaustive: every k-bit message, every n-bit word, every pair of codewords and every single (and for (16,11,4) double) error pattern of all seven block codes is executed through the library and compared with a table-free reference; within the stated finite domain this settles the property.",
         "Trusts bitarray/numpy and the reference cyclic encoders in vp/refs/gf2.py (generator polynomials from coding theory, cross-checked against the ETSI matrices only through this comparison).",
     ),
+    "C02": (
+        "fault_enumeration",
+        "complete enumeration of all 19306 error patterns of weight <= 2 on sampled codewords + Hypothesis search (round trip, reference encoder, GF(2)-linearity)",
+        "Every single and double inversion of the 196 transmitted bits is injected into zero/unit/random codewords and decoded with repair; encoder compared with an independent product-code reference; messages are sampled, faults are complete per codeword (linearity of the code, itself checked on random pairs, carries the result to other codewords).",
+        "Trusts the reference encoder vp/refs/bptc_ref.py (ETSI B.1.1 written from the mathematics) and bitarray/numpy; 2^96 messages are sampled, not enumerated.",
+    ),
 }
 
 NOT_YET = "check not built yet in this revision of /verif (planned, see DESIGN.md section 4)"
